@@ -145,7 +145,10 @@ def pre_compute_distance(
         for j in range(size):
             distances[i][j] = d.DISTANCES[distance](data[i], data[j])
 
-    np.savetxt(output, distances)
+    # The loaders expect comma-separated values in a `.csv` file
+    delimiter = "," if output.split(".")[-1] == "csv" else " "
+
+    np.savetxt(output, distances, delimiter=delimiter)
 
     logger.info("Distances saved to: %s.", output)
 
